@@ -18,7 +18,7 @@ MANIFEST = {
     "engine": "E1-linsys over (time x component x cell) impulses",
     "technique": "explicit-state model checking: exhaustive tabulation of the real phasor accumulation (update_detector_states over every step of a short run) on all (time, component, cell) impulse histories, comparison with a numpy windowed DFT; phasor Poynting detectors on all impulse singles and pairs",
     "text": "For a menu of phasor detectors (1-2 frequencies, component subsets, windows None/Gaussian/Tukey alpha 0,1/2,1, dft_subsample 1,2,3,auto, switch menu, continuous/pulse scaling, inverse, reduced, raw/exact interpolation, uniform/non-uniform grid) on a 2x2x2 domain and T=8 steps, the final detector state is tabulated on every impulse history and must equal scale*sum w(t) f(t) e^{i omega t} with scale 2/sum(w) (continuous) or the stride (pulse); windows that leave no positive weight must be rejected at placement. PhasorPoyntingFlux / ClosedSurfacePhasorPoyntingFlux results are compared on all impulse singles and pairs with the area-weighted Re(E x H*) of the reference phasors.",
-    "note": "Linearity in the history makes the impulse table complete for every field history (also checked on dense histories). Frequencies, window parameters and grid values come from finite alphabets.",
+    "note": "Tolerance 1e-9 relative; 2e-6 for detectors with an apodization window because fdtdx stores the window weights in float32. Linearity in the history makes the impulse table complete for every field history (also checked on dense histories). Frequencies, window parameters and grid values come from finite alphabets.",
 }
 RULE = (
     "case = (kind, grid, exact flag, chunk of detector option sets); every detector option set is one element, tabulated on all "
@@ -31,6 +31,7 @@ ASSUMPTIONS = [
     "eager (disable_jit) jax.vmap over histories evaluates the same Python code as the jitted driver (checked by conformance replays through custom_fdtd_forward)",
 ]
 TOL = 1e-9
+TOL_WINDOWED = 2e-6  # fdtdx stores the apodization weights in float32 (hard-wired), see PhasorDetector.place_on_grid
 ALL = ("Ex", "Ey", "Ez", "Hx", "Hy", "Hz")
 SHAPE = (2, 2, 2)
 T = 8
@@ -86,7 +87,7 @@ def _options(tier):
     return out
 
 
-FLUX_BOXES = [("closed", [[0, 2], [0, 1], [0, 1]]), ("plane", [[0, 1], [0, 2], [0, 1]]), ("closed", [[0, 2], [0, 2], [0, 1]]), ("plane", [[0, 2], [1, 2], [0, 2]]), ("closed", [[0, 2], [0, 2], [0, 2]])]
+FLUX_BOXES = [("closed", [[0, 2], [0, 1], [0, 1]]), ("plane", [[0, 1], [0, 2], [0, 2]]), ("closed", [[0, 2], [0, 2], [0, 1]]), ("plane", [[0, 2], [1, 2], [0, 2]]), ("closed", [[0, 2], [0, 2], [0, 2]])]
 
 
 def _flux_options(tier):
@@ -333,7 +334,7 @@ def _run_dft(case):
         worst = max(worst, r)
         if np.max(np.abs(got[0])) != 0:
             fail("phasor-of-zero-history-nonzero", dict(opts=o))
-        if r > TOL:
+        if r > (TOL if WINDOWS[o["window"]] is None else TOL_WINDOWED):
             b = int(np.argmax(np.max(np.abs(got - exp).reshape(got.shape[0], -1), axis=1)))
             step = (b - 1) // n if 1 <= b <= T * n else None
             fail(f"phasor!=windowed-dft:{_sig_of(o)}", dict(opts=o, rel=r, worst_history=b, impulse_step=step, recorded=rec, exact=exact, grid=case["grid"]))
@@ -411,7 +412,7 @@ def _conf(case, meta, table, info, exact):
             exp = np.einsum("fkxyz,xyz->fk", exp, wn)
         got = np.asarray(aT.detector_states[f"q{i}"]["phasor"][0])
         r = float(np.max(np.abs(got - exp))) / max(1e-300, float(np.max(np.abs(exp))))
-        if r > TOL:
+        if r > (TOL if WINDOWS[o["window"]] is None else TOL_WINDOWED):
             fails.append(dict(sig="conformance:driver-phasor!=dft-of-field-detector-history", detail=dict(opts=o, rel=r)))
         if not exact:
             # impulse table applied to the recorded history (E block rows 0..3N, H block rows 6N..9N)
@@ -540,7 +541,7 @@ def _run_flux(case):
         scale = max(1e-300, float(np.max(np.abs(exp))))
         r = float(np.max(np.abs(got - exp))) / scale
         worst = max(worst, r)
-        if r > TOL:
+        if r > (TOL if WINDOWS[o["window"]] is None else TOL_WINDOWED):
             b = int(np.argmax(np.max(np.abs(got - exp).reshape(got.shape[0], -1), axis=1)))
             fail(f"phasor-poynting:flux!=Re(ExH*)-of-windowed-dft:{cls}", dict(opts=o, rel=r, worst_history=b, histories=int(Hs.shape[0]), recorded=rec, steps=Tn, grid=case["grid"]))
         if scale > 1e-300 and sum(rec) >= 2:
